@@ -44,7 +44,11 @@ pub fn reader_fault(input: &[u8], from: Option<Fmt>, to: Fmt, k: usize, sched: &
     let kinds = [std::io::ErrorKind::Other, std::io::ErrorKind::UnexpectedEof, std::io::ErrorKind::InvalidData, std::io::ErrorKind::BrokenPipe];
     let kind = kinds[(k / 3) % 4];
     acc.count(&format!("reader_fault_kind_{kind:?}"));
-    let r = SchedReader::new(input, sched.clone()).with_fault(k).with_fault_kind(kind);
+    // ... and so does the way the error is built: with a custom payload, as a raw OS error, as a bare kind
+    let repr = ((k / 2) % 3) as u8;
+    acc.count(&format!("reader_fault_representation_{}", ["custom_payload", "raw_os_error", "bare_kind"][repr as usize]));
+    let mark = crate::mon::fault_text(repr, kind);
+    let r = SchedReader::new(input, sched.clone()).with_fault(k).with_fault_kind(kind).with_fault_repr(repr);
     let log = r.log_handle();
     let v = guarded(|| xt::translate_reader(r, from.map(Fmt::xt), to.xt(), &mut out));
     let faults = log.borrow().faults_returned;
@@ -61,7 +65,7 @@ pub fn reader_fault(input: &[u8], from: Option<Fmt>, to: Fmt, k: usize, sched: &
     let problem = match &v {
         Verdict::Ok => Some("returned Ok although the reader failed".to_string()),
         Verdict::Panic(p) => Some(format!("panicked: {p}")),
-        Verdict::Err(e) if !e.contains(READ_MARK) => Some(format!("error text lost the reader's error: Err({e})")),
+        Verdict::Err(e) if !e.contains(mark.as_str()) => Some(format!("error text lost the reader's error [{mark}]: Err({e})")),
         Verdict::Err(_) if !prefix_ok => Some(format!("bytes written are not a prefix of the fault-free output: [{}] vs [{}]", preview(&out, 160), preview(clean, 160))),
         Verdict::Err(e) => {
             acc.count(&format!("reader_fault_error_{}", classify_err(e)));
@@ -69,7 +73,7 @@ pub fn reader_fault(input: &[u8], from: Option<Fmt>, to: Fmt, k: usize, sched: &
         }
     };
     if let Some(p) = problem {
-        acc.violation(Violation { sig: format!("reader fault {}->{}: {}", fmts::from_name(from), to.name(), ev::truncate(&crate::c02_mask(&p), 70)), case: case_json("reader", input, from, to, k, &sched.describe()), observed: p, expected: format!("Err containing '{READ_MARK}', output a prefix of the fault-free output") });
+        acc.violation(Violation { sig: format!("reader fault {}->{}: {}", fmts::from_name(from), to.name(), ev::truncate(&crate::c02_mask(&p), 70)), case: case_json("reader", input, from, to, k, &sched.describe()), observed: p, expected: format!("Err containing '{mark}', output a prefix of the fault-free output") });
     }
 }
 
@@ -269,7 +273,7 @@ pub fn run(ctx: &Ctx) -> i32 {
     let n_second = ctx.size(3000, 100000);
     let second = crate::par::run(n_second, 16, |i, acc| toml_second_call_after_fault(seed, i, acc));
     acc.merge(second);
-    let rule = format!("{} generated valid inputs (1-3 documents, each format in turn, every third YAML input re-encoded as UTF-16/32 with characters outside the BMP, <= 2 KiB plus a stratified sample above) x [explicit, detected] x rotating target, restricted to combinations whose fault-free run succeeds; for each: the reader fails and keeps failing after k bytes for EVERY k in 0..=len under rotating schedules [all, one, random]; the writer fails after accepting k bytes for EVERY k below the fault-free length in three styles (short accept then fail / reject the crossing write / accept nothing more: Ok(0)), from slice and reader input; 4 short-write patterns; {} heavy documents (thousands of entries, 64 KiB strings) to every target incl. TOML under 6 short-write patterns (at most 1000 .. 1 MiB bytes accepted per call) and 12 sampled writer faults; pairs of calls on one TOML translator whose first call meets one failing write (hard or transient kind): the second call may not append; flush faults; distinct non-trivial = distinct (input, from, to) combinations", n, n_big);
+    let rule = format!("{} generated valid inputs (1-3 documents, each format in turn, every third YAML input re-encoded as UTF-16/32 with characters outside the BMP, <= 2 KiB plus a stratified sample above) x [explicit, detected] x rotating target, restricted to combinations whose fault-free run succeeds; for each: the reader fails and keeps failing after k bytes for EVERY k in 0..=len under rotating schedules [all, one, random], error kinds and error representations (custom payload, raw OS error, bare kind); the writer fails after accepting k bytes for EVERY k below the fault-free length in three styles (short accept then fail / reject the crossing write / accept nothing more: Ok(0)), from slice and reader input; 4 short-write patterns; {} heavy documents (thousands of entries, 64 KiB strings) to every target incl. TOML under 6 short-write patterns (at most 1000 .. 1 MiB bytes accepted per call) and 12 sampled writer faults; pairs of calls on one TOML translator whose first call meets one failing write (hard or transient kind): the second call may not append; flush faults; distinct non-trivial = distinct (input, from, to) combinations", n, n_big);
     ev::finish(
         Finish { ctx, level: "fault_enumeration", rule, assumptions: vec!["for YAML output one trailing '---' header after the last complete document is allowed (the writer emits it before pulling the next document)".into(), "writer-fault error text is judged in C11, not here".into()], extra: serde_json::Map::new(), exhaustive: false, min_distinct: 200, must_reach: vec![("reader_faults_delivered".into(), 10000), ("writer_fault_points".into(), 10000), ("short_write_runs".into(), 500), ("flush_fault_runs".into(), 4), ("inputs_utf16_32_with_astral_characters".into(), 20), ("writer_fault_style_ZeroLen".into(), 2000), ("large_output_cases".into(), 12), ("toml_second_call_after_a_faulted_first_call".into(), 1000)] },
         acc,
